@@ -4,6 +4,7 @@
 import GoFlags.Completion
 import GoFlags.Lemmas.Sort
 import GoFlags.Lemmas.Walk
+import GoFlags.Lemmas.ShortWalk
 
 namespace GoFlags.C18
 open GoFlags Bytes
@@ -213,17 +214,18 @@ theorem parser_command_word_after_rest (E : Env) (ps : PS)
 
 /-! ### The walk against the parser -/
 
-/-- **The completion walk follows the parser** (command lines of plain words, long options with or
-    without attached or separate arguments, terminators, unknown options; no unknown-option
-    handler).  Whenever the parser's own loop reads all of the already-typed words without an
+
+/-- **The completion walk follows the parser** (command lines of plain words, long options and
+    clusters of short options, with or without attached or separate arguments, terminators, unknown
+    options; short clusters in well-formed UTF-8; no unknown-option handler).  Whenever the parser's own loop reads all of the already-typed words without an
     error, the completion walk over those words either reports that the rest of the line is
     passed through (a terminator was reached), or arrives — at the same point of the line — in a
     state that agrees with the parser's: same command context, same pending positional arguments,
     same "a remaining argument has been seen".  For command lines of any length.
-    (`_partial`: clusters of short options are not covered by this theorem.) -/
-theorem walk_follows_parser_partial (E : Env) (help : HelpFn) (fuel : Nat) :
+ -/
+theorem walk_follows_parser (E : Env) (help : HelpFn) (fuel : Nat) :
     ∀ (ps : PS) (cs : CS) (tail : List Bytes), Agree ps cs → cs.args = ps.args ++ tail → tail ≠ [] →
-      ps.args.length < fuel → (∀ w ∈ ps.args, LongOrPlain w) → ps.P.handler = .none → ps.err = none →
+      ps.args.length < fuel → (∀ w ∈ ps.args, WalkWord w) → ps.P.handler = .none → ps.err = none →
       (parseLoop E help fuel ps).err = none → (parseLoop E help fuel ps).args = [] →
       (compWalk fuel cs none).2.2 = true ∨
       ∃ fuel' cs', compWalk fuel cs none = compWalk fuel' cs' none ∧ cs'.args = tail ∧
@@ -251,8 +253,8 @@ theorem walk_follows_parser_partial (E : Env) (help : HelpFn) (fuel : Nat) :
       let s1 : PS := { ps with arg := arg, args := rest }
       let cs0 : CS := { cs with args := rest ++ tail }
       have hag0 : Agree s1 cs0 := ⟨hag.decl, hag.cmd, hag.pos, hag.rest⟩
-      have hw : LongOrPlain arg := hwords arg (by rw [hpargs]; simp)
-      have hwrest : ∀ w ∈ rest, LongOrPlain w := fun w hw' => hwords w (by rw [hpargs]; simp [hw'])
+      have hw : WalkWord arg := hwords arg (by rw [hpargs]; simp)
+      have hwrest : ∀ w ∈ rest, WalkWord w := fun w hw' => hwords w (by rw [hpargs]; simp [hw'])
       have hc0args : cs0.args = rest ++ tail := rfl
       have hcsargs : cs.args = arg :: x :: xs := by rw [hcargs, hrt]
       have hcs0 : ({ cs with args := x :: xs } : CS) = cs0 := by simp only [cs0, hrt]
@@ -299,108 +301,96 @@ theorem walk_follows_parser_partial (E : Env) (help : HelpFn) (fuel : Nat) :
                 (by rw [ha2]; rw [hpargs] at hf; simp at hf; omega) (by rw [ha2]; exact hwrest) hnoh2 he2 herr hdone
         | true =>
           simp only [hio, Bool.not_true, Bool.false_eq_true, if_false] at herr hdone ⊢
-          have hlong : (stripOptionPrefix arg).2.2 = true := by
-            rcases hw with h | h
-            · rw [hio] at h; cases h
-            · exact h
-          generalize hso : stripOptionPrefix arg = so at herr hdone hlong ⊢
+          generalize hso : stripOptionPrefix arg = so at herr hdone ⊢
           obtain ⟨pfx, name0, islong⟩ := so
-          simp only at hlong
-          subst hlong
           simp only at herr hdone ⊢
-          generalize hsp : splitOption name0 true = sp at herr hdone ⊢
+          generalize hsp : splitOption name0 islong = sp at herr hdone ⊢
           obtain ⟨name, split', argument⟩ := sp
-          simp only [if_true] at herr hdone ⊢
-          rw [compWalk_long f cs none arg x xs pfx name0 name split' argument hcsargs hddc hio hso hsp, hcs0]
-          have hll : s1.P.lookupLong s1.cmd name = cs.P.lookupLong cs.cmd name := hag0.lookupLong name
+          simp only at herr hdone ⊢
+          rw [compWalk_option f cs none arg x xs pfx name0 name split' argument islong hcsargs hddc hio hso hsp, hcs0]
           have hlenrest : rest.length < f := by rw [hpargs] at hf; simp at hf; omega
-          cases hl : cs.P.lookupLong cs.cmd name with
-          | none =>
-            -- an option the declarations do not know
-            have hl1 : s1.P.lookupLong s1.cmd name = none := by rw [hll, hl]
-            have hpl : parseLong E help s1 name argument =
-                (s1, some (.flags .unknownFlag (B "unknown flag `" ++ name ++ B "'"))) := by
-              unfold parseLong; simp only [hl1]
-            rw [hpl] at herr hdone ⊢
-            simp only at herr hdone ⊢
-            have hpol : unknownPolicyStops s1.P (.flags .unknownFlag (B "unknown flag `" ++ name ++ B "'")) = !ps.P.opts.ignoreUnknown := by
-              have : s1.P.handler = .none := hnoh
-              simp [unknownPolicyStops, GoErr.isUnknownFlag, this]
-              rfl
-            cases hign : ps.P.opts.ignoreUnknown with
+          have hout := token_outcome E help s1 cs0 hag0.decl hag0.cmd arg pfx name0 name split' argument islong hw hio hso hsp
+          generalize walkOpt cs0 name islong = wo at hout ⊢
+          generalize (if islong = true then parseLong E help s1 name argument else parseShort E help s1 name argument) = res at herr hdone hout ⊢
+          obtain ⟨s2, err⟩ := res
+          obtain ⟨o, canarg⟩ := wo
+          unfold ShortOutcome at hout
+          cases err with
+          | some e =>
+            simp only at herr hdone hout ⊢
+            cases hu : e.isUnknownFlag with
             | false =>
-              rw [hpol, hign] at herr
-              simp at herr
-            | true =>
-              rw [hpol, hign] at herr hdone ⊢
-              have hign1 : s1.P.opts.ignoreUnknown = true := hign
-              simp only [Bool.not_true, Bool.false_eq_true, if_false, hign1, if_true] at herr hdone ⊢
-              have hignc : cs.P.opts.ignoreUnknown = true := by rw [hopts]; exact hign
-              simp only [hignc, if_true]
-              have he3 : (s1.addArgs E [arg]).1.err = none := by
-                cases hq : (s1.addArgs E [arg]).1.err with
-                | none => rfl
-                | some e3 =>
-                  exfalso
-                  exact parseLoop_err_sticky E help f _ (by rw [hq]; simp) herr
-              obtain ⟨hag3, ha3, hca3⟩ := passThrough_agree E s1 cs0 arg hag0 h0 he3
-              have hnoh3 : (s1.addArgs E [arg]).1.P.handler = .none := by
-                rw [(addArgs_decl E s1 [arg]).handler]; exact hnoh
-              exact ih _ cs0.passThrough tail hag3 (by rw [hca3, ha3]) htail (by rw [ha3]; exact hlenrest)
-                (by rw [ha3]; exact hwrest) hnoh3 he3 herr hdone
-          | some r =>
-            have hl1 : s1.P.lookupLong s1.cmd name = some r := by rw [hll, hl]
-            have hpl : parseLong E help s1 name argument = parseOption E help s1 r (!(s1.P.opt r).optionalArg) argument := by
-              unfold parseLong; simp only [hl1]
-            rw [hpl] at herr hdone ⊢
-            have hacc := parseOption_accept E help s1 r argument
-            have hnuf := parseOption_not_unknownFlag E help s1 r (!(s1.P.opt r).optionalArg) argument
-            generalize parseOption E help s1 r (!(s1.P.opt r).optionalArg) argument = res at herr hdone hacc hnuf ⊢
-            obtain ⟨s2, err⟩ := res
-            cases err with
-            | some e =>
-              simp only at herr hdone ⊢
-              have : unknownPolicyStops s2.P e = true := by
-                unfold unknownPolicyStops; rw [hnuf e rfl]; rfl
+              have : unknownPolicyStops s2.P e = true := by unfold unknownPolicyStops; rw [hu]; rfl
               rw [this] at herr
               simp at herr
-            | none =>
-              simp only at herr hdone hacc ⊢
-              have hA := hacc trivial
-              obtain ⟨hty, hoa⟩ := hag0.optTy r
-              have hs1P : s1.P = ps.P := rfl
-              have htk : (argument.isNone && (cs.P.opt r).ty.canArgument && !(cs.P.opt r).optionalArg) =
-                  ((s1.P.opt r).ty.canArgument && argument.isNone && !(s1.P.opt r).optionalArg) := by
-                rw [← hty, ← hoa]; cases argument.isNone <;> cases (s1.P.opt r).ty.canArgument <;> rfl
-              rw [htk]
-              have hnoh2 : s2.P.handler = .none := by rw [hA.decl.handler]; exact hnoh
-              have he2 : s2.err = none := by rw [hA.err]; exact h0
-              cases htakes : ((s1.P.opt r).ty.canArgument && argument.isNone && !(s1.P.opt r).optionalArg) with
+            | true =>
+              obtain ⟨ho, hk⟩ := hout hu
+              subst ho
+              simp only
+              have hh2 : s2.P.handler = .none := by rw [hk.decl.handler]; exact hnoh
+              have ho2 : s2.P.opts = ps.P.opts := hk.decl.opts
+              have hpol : unknownPolicyStops s2.P e = !ps.P.opts.ignoreUnknown := by
+                simp [unknownPolicyStops, hu, hh2, ho2]
+              cases hign : ps.P.opts.ignoreUnknown with
               | false =>
-                simp only [Bool.false_eq_true, if_false]
-                have ha2 : s2.args = rest := by have := hA.args; rw [htakes] at this; simpa using this
-                have hag2 : Agree s2 cs0 := ⟨hA.decl.trans hag.decl, hA.cmd.trans hag.cmd, hA.pos.trans hag.pos, by rw [hA.ret]; exact hag.rest⟩
-                exact ih s2 cs0 tail hag2 (by rw [ha2]) htail (by rw [ha2]; exact hlenrest) (by rw [ha2]; exact hwrest) hnoh2 he2 herr hdone
+                rw [hpol, hign] at herr
+                simp at herr
               | true =>
-                simp only [if_true]
-                have hne : rest ≠ [] := hA.avail htakes
-                obtain ⟨r0, rest', hr'⟩ := List.exists_cons_of_ne_nil hne
-                have hxs : xs = rest' ++ tail := by
-                  rw [hr'] at hrt
-                  simp only [List.cons_append] at hrt
-                  injection hrt with _ h2
-                  exact h2.symm
-                have hxne : xs ≠ [] := by rw [hxs]; simp [htail]
-                simp only [hxne, if_false]
-                have ha2 : s2.args = rest' := by
-                  have := hA.args; rw [htakes] at this
-                  simp only [if_true] at this
-                  rw [this]; show rest.tail = rest'; rw [hr']; rfl
-                have hag2 : Agree s2 ({ cs with args := xs } : CS) :=
-                  ⟨hA.decl.trans hag.decl, hA.cmd.trans hag.cmd, hA.pos.trans hag.pos, by rw [hA.ret]; exact hag.rest⟩
-                exact ih s2 { cs with args := xs } tail hag2 (by rw [ha2]; exact hxs) htail
-                  (by rw [ha2]; rw [hr'] at hlenrest; simp at hlenrest; omega)
-                  (by rw [ha2]; intro w hw'; exact hwrest w (by rw [hr']; simp [hw'])) hnoh2 he2 herr hdone
+                rw [hpol, hign] at herr hdone ⊢
+                have hign2 : s2.P.opts.ignoreUnknown = true := by rw [ho2]; exact hign
+                simp only [Bool.not_true, Bool.false_eq_true, if_false, hign2, if_true] at herr hdone ⊢
+                have hignc : cs.P.opts.ignoreUnknown = true := by rw [hopts]; exact hign
+                simp only [hignc, if_true]
+                have he2 : s2.err = none := by rw [hk.err]; exact h0
+                have he3 : (s2.addArgs E [arg]).1.err = none := by
+                  cases hq : (s2.addArgs E [arg]).1.err with
+                  | none => rfl
+                  | some e3 =>
+                    exfalso
+                    exact parseLoop_err_sticky E help f _ (by rw [hq]; simp) herr
+                have hag2 : Agree s2 cs0 := ⟨hk.decl.trans hag.decl, hk.cmd.trans hag.cmd, hk.pos.trans hag.pos, by rw [hk.ret]; exact hag.rest⟩
+                have ha2 : s2.args = rest := hk.args
+                obtain ⟨hag3, ha3, hca3⟩ := passThrough_agree E s2 cs0 arg hag2 he2 he3
+                have hnoh3 : (s2.addArgs E [arg]).1.P.handler = .none := by
+                  rw [(addArgs_decl E s2 [arg]).handler]; exact hh2
+                exact ih _ cs0.passThrough tail hag3 (by rw [hca3, ha3, ha2]) htail (by rw [ha3, ha2]; exact hlenrest)
+                  (by rw [ha3, ha2]; exact hwrest) hnoh3 he3 herr hdone
+          | none =>
+            simp only at herr hdone hout ⊢
+            obtain ⟨r, ho, hA⟩ := hout
+            subst ho
+            simp only
+            have hnoh2 : s2.P.handler = .none := by rw [hA.decl.handler]; exact hnoh
+            have he2 : s2.err = none := by rw [hA.err]; exact h0
+            have hcs0P : cs0.P = cs.P := rfl
+            rw [hcs0P] at hA
+            cases htakes : (argument.isNone && (cs.P.opt r).ty.canArgument && !(cs.P.opt r).optionalArg && canarg) with
+            | false =>
+              simp only [Bool.false_eq_true, if_false]
+              have ha2 : s2.args = rest := by have := hA.args; rw [htakes] at this; simpa using this
+              have hag2 : Agree s2 cs0 := ⟨hA.decl.trans hag.decl, hA.cmd.trans hag.cmd, hA.pos.trans hag.pos, by rw [hA.ret]; exact hag.rest⟩
+              exact ih s2 cs0 tail hag2 (by rw [ha2]) htail (by rw [ha2]; exact hlenrest) (by rw [ha2]; exact hwrest) hnoh2 he2 herr hdone
+            | true =>
+              simp only [if_true]
+              have hne : rest ≠ [] := hA.avail htakes
+              obtain ⟨r0, rest', hr'⟩ := List.exists_cons_of_ne_nil hne
+              have hxs : xs = rest' ++ tail := by
+                rw [hr'] at hrt
+                simp only [List.cons_append] at hrt
+                injection hrt with _ h2
+                exact h2.symm
+              have hxne : xs ≠ [] := by rw [hxs]; simp [htail]
+              simp only [hxne, if_false]
+              have ha2 : s2.args = rest' := by
+                have := hA.args; rw [htakes] at this
+                simp only [if_true] at this
+                rw [this]; show rest.tail = rest'; rw [hr']; rfl
+              have hag2 : Agree s2 ({ cs with args := xs } : CS) :=
+                ⟨hA.decl.trans hag.decl, hA.cmd.trans hag.cmd, hA.pos.trans hag.pos, by rw [hA.ret]; exact hag.rest⟩
+              exact ih s2 { cs with args := xs } tail hag2 (by rw [ha2]; exact hxs) htail
+                (by rw [ha2]; rw [hr'] at hlenrest; simp at hlenrest; omega)
+                (by rw [ha2]; intro w hw'; exact hwrest w (by rw [hr']; simp [hw'])) hnoh2 he2 herr hdone
+
 
 /-- **Completion reaches the parser's command context.**  For a whole command line
     `typed words ++ [partial last word]`, when the parser's own loop reads the typed words without
@@ -408,7 +398,7 @@ theorem walk_follows_parser_partial (E : Env) (help : HelpFn) (fuel : Nat) :
     through" or with no option value pending and in the command context, with the pending
     positional arguments and the "remaining argument seen" state, that the parser reached. -/
 theorem completion_reaches_parsers_context (E : Env) (help : HelpFn) (P : Parser) (typed : List Bytes) (last : Bytes)
-    (hwords : ∀ w ∈ typed, LongOrPlain w) (hnoh : P.handler = .none)
+    (hwords : ∀ w ∈ typed, WalkWord w) (hnoh : P.handler = .none)
     (herr : (parseLoop E help (typed.length + 2) (({ P := P, args := typed } : PS).fill 0)).err = none)
     (hdone : (parseLoop E help (typed.length + 2) (({ P := P, args := typed } : PS).fill 0)).args = []) :
     let w := compWalk ((typed ++ [last]).length + 1) (compStart P (typed ++ [last])) none
@@ -419,7 +409,7 @@ theorem completion_reaches_parsers_context (E : Env) (help : HelpFn) (P : Parser
   rw [hfuel]
   have hag : Agree (({ P := P, args := typed } : PS).fill 0) (compStart P (typed ++ [last])) :=
     ⟨SameDecl.refl _, rfl, rfl, by simp [compStart, CS.fill, PS.fill]⟩
-  rcases walk_follows_parser_partial E help (typed.length + 2) _ _ [last] hag rfl (by simp) (by simp [PS.fill]) hwords hnoh rfl herr hdone with h | ⟨fuel', cs', hw, hargs', hag'⟩
+  rcases walk_follows_parser E help (typed.length + 2) _ _ [last] hag rfl (by simp) (by simp [PS.fill]) hwords hnoh rfl herr hdone with h | ⟨fuel', cs', hw, hargs', hag'⟩
   · exact Or.inl h
   · right
     have hend : compWalk fuel' cs' none = (cs', none, false) := by
